@@ -185,8 +185,8 @@ func TestPropWorkPanics(t *testing.T) {
 				last.Work = append(last.Work, modsim.Work{ID: 101, Kind: k2, Mode: "finish", HoldUS: 500, Panic: rapid.SampledFrom(modsim.PanicKinds).Draw(t, "panic2")})
 			}
 		}
+		sc.Delays = modsim.GenDelays(t, sc.Modules, 2)
 		res := judge(t, sc)
-		_ = res
 		stats.Case(sc.Fingerprint(), true, "work_"+kind, "panic_"+pk, "mode_"+mode, fmt.Sprintf("healthy_%d", k))
 		if stats.WantSample("work_generated") {
 			stats.Sample("work_generated", map[string]any{"scenario": sc, "events": modsim.RenderEvents(res.Events, 50)})
@@ -224,6 +224,7 @@ func TestPropLifecyclePanics(t *testing.T) {
 			}
 		}
 		sc.Steps = append(sc.Steps, modsim.Step{Op: "shutdown"})
+		sc.Delays = modsim.GenDelays(t, sc.Modules, 3)
 		res := judge(t, sc)
 		if v := modsim.CheckC01(sc, res); v != nil {
 			b, _ := json.Marshal(sc)
@@ -257,4 +258,19 @@ func TestRegReplayCase(t *testing.T) {
 		t.Skipf("not a scenario file: %v", err)
 	}
 	judge(t, sc)
+}
+
+// fixed finding (second half of the control-function hand-over): with the running flag reset before the result is
+// handed over, a worker that finishes in between signals "stop complete" and the stop sequence used to look for the
+// stop routine's result without waiting for it - the panic/error of the stop routine was dropped and Shutdown returned nil.
+func TestRegStopResultNotMissed(t *testing.T) {
+	for _, js := range []string{
+		`{"modules":[{"name":"m0","prep":{"dur_us":0},"start":{"dur_us":0},"stop":{"dur_us":0,"fault":"panic","panic":"string"},"work":[{"id":1,"kind":"startworker","mode":"waitctx","delay_us":2000}]}],"mgmt":false,"steps":[{"op":"start"},{"op":"launch","mods":["m0"]},{"op":"shutdown"}],"start_timeout_ms":20000,"stop_timeout_ms":8000,"delays":[{"point":"modules.ctrlfn.returned","ctx":"m0","nth":3,"delay_us":10000}]}`,
+	} {
+		sc := &modsim.Scenario{}
+		if err := json.Unmarshal([]byte(js), sc); err != nil {
+			t.Fatal(err)
+		}
+		judge(t, sc)
+	}
 }
